@@ -4,6 +4,7 @@ package memnet
 
 import (
 	"errors"
+	"io"
 	"net"
 	"sync"
 )
@@ -40,9 +41,64 @@ func (l *Listener) Close() error {
 
 func (l *Listener) Addr() net.Addr { return addr("mem") }
 
+// srvConn is the server side of a connection. Besides the synchronous pipe it can be handed bytes "already received":
+// Read serves them, then reports EOF — what a TCP receiver sees when the peer wrote and closed in one go (data and FIN
+// both queued before the reader looks), which a net.Pipe alone cannot express because its writes are synchronous.
+type srvConn struct {
+	net.Conn
+	mu     sync.Mutex
+	inject []byte
+	eof    bool
+}
+
+func (s *srvConn) Read(p []byte) (int, error) {
+	if n, err, ok := s.fromInject(p); ok {
+		return n, err
+	}
+	n, err := s.Conn.Read(p)
+	if err != nil && n == 0 {
+		if n2, err2, ok := s.fromInject(p); ok {
+			return n2, err2
+		}
+	}
+	return n, err
+}
+
+func (s *srvConn) fromInject(p []byte) (int, error, bool) {
+	s.mu.Lock()
+	defer s.mu.Unlock()
+	if len(s.inject) > 0 {
+		n := copy(p, s.inject)
+		s.inject = s.inject[n:]
+		return n, nil, true
+	}
+	if s.eof {
+		return 0, io.EOF, true
+	}
+	return 0, nil, false
+}
+
+// Client is the client side of a connection.
+type Client struct {
+	net.Conn
+	peer *srvConn
+}
+
+// WriteThenEOF makes b and the end of the stream available to the server side at once and closes the client side:
+// the server reads b (in as many Reads as it likes) and then EOF, with no scheduling gap in between.
+func (c *Client) WriteThenEOF(b []byte) error {
+	c.peer.mu.Lock()
+	c.peer.inject = append(c.peer.inject, b...)
+	c.peer.eof = true
+	c.peer.mu.Unlock()
+	return c.Conn.Close()
+}
+
 // Dial returns the client side of a fresh connection (nil error unless the listener is closed).
 func (l *Listener) Dial() (net.Conn, error) {
-	c, s := net.Pipe()
+	c0, s0 := net.Pipe()
+	s := &srvConn{Conn: s0}
+	c := &Client{Conn: c0, peer: s}
 	select {
 	case l.ch <- s:
 		return c, nil
